@@ -29,7 +29,7 @@ RULE = ("a structure-aware byte mutator produces public-key and signature string
 ASSUMPTIONS = ["model decoder and exact subgroup membership (vf/model/bls12381.py)",
                "byte strings are of type bytes (the documented argument type)"]
 ENGINE = "hypothesis (structure-aware byte mutation) + atheris in the thorough tier"
-MUTS = ("valid", "truncated", "extended_lead", "extended_trail", "extended_mid", "flags", "special_x", "off_curve",
+MUTS = ("valid", "truncated", "extended_lead", "extended_trail", "extended_mid", "flags", "second_word_flags", "special_x", "off_curve",
         "non_subgroup", "small_order", "kG+T", "identity_enc", "random")
 _REQ = ([f"pk:{m}" for m in MUTS] + [f"sig:{m}" for m in MUTS] +
         ["entry:KeyValidate", "entry:Verify", "entry:AggregateVerify", "entry:FastAggregateVerify",
@@ -278,6 +278,17 @@ def mutate(g, base: bytes, mut: str, a: int, b: int, blob: bytes) -> bytes:
         if g == "G2" and b % 3 == 0:
             v |= (1 + b % 7) << 381              # flag bits in the second word
         return v.to_bytes(nominal, "big")
+    if mut == "second_word_flags":
+        # everything else untouched: only the three top bits of the second 48-byte word (G2), or a
+        # re-encoding x + p of the first word where it still fits in 381 bits (G1/G2)
+        v = int.from_bytes(base, "big")
+        if g == "G2" and b % 4:
+            return (v | ((1 + a % 7) << 381)).to_bytes(96, "big")
+        top = nominal * 8 - 3
+        x = (v >> (0 if g == "G1" else 384)) & ((1 << 381) - 1)
+        if x + P < (1 << 381):
+            return (v + (P << (0 if g == "G1" else 384))).to_bytes(nominal, "big")
+        return (v ^ (1 << (top + 2))).to_bytes(nominal, "big")         # fall back: clear the compression flag
     if mut == "special_x":
         x = SPECIAL_X[a % len(SPECIAL_X)]
         flags = [4, 5, 6, 7, 0, 2][b % 6]
